@@ -637,10 +637,6 @@ func (a *Analyzer) onCrash(n *nodeState, r *ev.Rec) {
 	n.crashPoint = r.Point
 	n.crashLog = n.log
 	n.crashPrev, n.crashLast, n.crashNeed = n.prev, n.last, n.needLast
-	if n.frontier < n.crashNeed {
-		// cannot happen if reply-before-flush holds; keep the weaker need
-		n.crashNeed = n.frontier
-	}
 	n.serving = false
 	if r.Err != "" {
 		a.rep.Inconclusive = append(a.rep.Inconclusive, "crash image copy failed: "+r.Err)
